@@ -48,6 +48,12 @@ pub struct Model {
     pub orphan_cut: Option<usize>,
     /// outputs may have been adopted without the model knowing which
     pub content_unknown: bool,
+    /// number of invocations completed since the log was last torn
+    pub inv_since_tear: Option<usize>,
+    /// names of the edit operations applied since the last invocation
+    pub edits_since_invoke: Vec<&'static str>,
+    /// (step id -> reason) a success left no record because a reported dependency was missing
+    pub norecord_dep_missing: BTreeSet<usize>,
 }
 
 impl Model {
@@ -62,7 +68,7 @@ impl Model {
         self.recs
             .iter()
             .rev()
-            .find(|r| !r.outs.is_empty() && r.outs.iter().all(|o| s.outs.contains(o)))
+            .find(|r| !r.outs.is_empty() && (r.outs == s.outs || r.outs.iter().all(|o| s.outs.contains(o))))
     }
 
     pub fn sig_now(&self, p: &Project, si: usize, deps: &[String]) -> Option<Sig> {
@@ -95,6 +101,9 @@ impl Model {
             return None;
         }
         let rec = match self.rec_for(p, si) {
+            None if self.norecord_dep_missing.contains(&s.id) => {
+                return Some("no record: a reported dependency (deps) was missing when it last completed".into())
+            }
             None => return Some("no record".into()),
             Some(r) => r,
         };
@@ -130,7 +139,7 @@ impl Model {
     pub fn judgeable(&self, p: &Project, si: usize) -> bool {
         if let Some(cut) = self.orphan_cut {
             let s = &p.steps[si];
-            let idx = self.recs.iter().rposition(|r| !r.outs.is_empty() && r.outs.iter().all(|o| s.outs.contains(o)));
+            let idx = self.recs.iter().rposition(|r| !r.outs.is_empty() && (r.outs == s.outs || r.outs.iter().all(|o| s.outs.contains(o))));
             if idx.map(|i| i < cut).unwrap_or(true) {
                 return false;
             }
@@ -142,10 +151,12 @@ impl Model {
     pub fn deps_to_record(p: &Project, si: usize, reported: &Option<Vec<String>>) -> Vec<String> {
         let s = &p.steps[si];
         let mut deps: Vec<String> = Vec::new();
+        let mut seen: std::collections::HashSet<String> = std::collections::HashSet::new();
         if let Some(rep) = reported {
             for h in rep {
                 let h = canon(h);
-                if !deps.contains(&h) && !s.exp.contains(&h) && !s.imp.contains(&h) {
+                if !seen.contains(&h) && !s.exp.contains(&h) && !s.imp.contains(&h) {
+                    seen.insert(h.clone());
                     deps.push(h);
                 }
             }
